@@ -10,7 +10,7 @@ CP3 = 'double Clipper2Lib::CrossProduct<long>(Clipper2Lib::Point<long> const&, C
 OBLIGATIONS = [
   O('C18.a-multiply-exact', 'c18_core.cpp', 'harness_multiply', backend='cvc5int', olevel='O1', bound='all 2^128 (a,b)', desc='Multiply == exact 128-bit product', timeout=300),
   O('C18.b-cps128', 'c18_core.cpp', 'harness_cps128', backend=['cvc5int','z3'], crosscheck=True, bound='all int64 points whose differences fit int64', desc='CrossProductSign == sign of exact 128-bit cross product'),
-  O('C18.b-pae128', 'c18_core.cpp', 'harness_pae128', backend=['cvc5int','z3'], crosscheck=True, bound='all int64', desc='ProductsAreEqual exact'),
+  O('C18.b-pae128', 'c18_core.cpp', 'harness_pae128', backend=['cvc5int', 'z3', 'kissat', 'cadical'], timeout=600, bound='all int64', desc='ProductsAreEqual exact'),
   O('C18.b-iscollinear128', 'c18_core.cpp', 'harness_iscollinear128', backend=['cvc5int','z3'], crosscheck=True, bound='all int64 points whose differences fit int64', desc='IsCollinear exact and consistent with CrossProductSign'),
   O('C18.c-crossproduct-exact', 'c18_pip.cpp', 'harness_crossproduct_exact', lift=[CP3, 'harness_crossproduct_exact'], backend=['z3', 'cvc5int', 'cadical'],
     bound='|coord|<=2^25', desc='double CrossProduct(p1,p2,p3) == exact integer cross product (exact-double lifting; side conditions |v|<=2^53 asserted)'),
